@@ -72,10 +72,21 @@ def expected_structure(spec, ignore_four):
     return internal, juncs
 
 
-def check_case(res, spec, fit, ignore_four, exprs, label):
+def check_case(res, spec, fit, ignore_four, exprs, label, prebuild=None):
     fr = impl.frame(spec)
     f = impl.forsys_of({0: fr})
-    replay = {"spec": {k: spec[k] for k in ("vertices", "edges", "cells", "ifaces", "meta")}, "fit": fit, "ignore_four": ignore_four, "label": label}
+    replay = {"spec": {k: spec[k] for k in ("vertices", "edges", "cells", "ifaces", "meta")}, "fit": fit, "ignore_four": ignore_four, "label": label,
+              "prebuild": prebuild}
+    if prebuild is not None:
+        # the same Frame was assembled before with an opening-angle limit that leaves interfaces out: the judged (unrestricted) system
+        # must not remember it
+        try:
+            with impl.quiet():
+                f.build_force_matrix(when=0, metadata={"ignore_four": ignore_four}, angle_limit=prebuild, circle_fit_method=fit)
+            left_out = len(fr.internal_big_edges) - len(f.force_matrices[0].big_edges_to_use)
+            res.count("assembled before with an angle limit" + (" that left interfaces out" if left_out else ""))
+        except Exception:  # noqa  (restricted systems are C16's subject)
+            res.count("assembled before with an angle limit: rejected")
     try:
         with impl.quiet():
             f.build_force_matrix(when=0, metadata={"ignore_four": ignore_four}, angle_limit=np.inf, circle_fit_method=fit)
@@ -325,7 +336,7 @@ def run(res, tier, seed):
     fit_cases(res, rng, exprs, 12 if tier == "quick" else 120)
     for spec, label in tissues(rng, tier):
         for fit in ("dlite", "taubinSVD"):
-            check_case(res, spec, fit, bool(rng.integers(0, 2)), exprs, label)
+            check_case(res, spec, fit, bool(rng.integers(0, 2)), exprs, label, prebuild=float(rng.uniform(1.9, 2.5)) if rng.random() < 0.4 else None)
     bools, outs = C.coq_eval_bools("C02", IMPORTS, [e for e, _ in exprs], chunk=4)
     for (e, rp), b in zip(exprs, bools):
         res.traces += 1
@@ -360,7 +371,7 @@ def replay(res, obj):
     sink = []
     spec = dict(inp["spec"])
     spec.setdefault("meta", inp.get("meta", {"mobius": inp.get("mobius")}))
-    check_case(res, spec, inp["fit"], inp["ignore_four"], sink, "replay")
+    check_case(res, spec, inp["fit"], inp["ignore_four"], sink, "replay", prebuild=inp.get("prebuild"))
     bools, _ = C.coq_eval_bools("C02r", IMPORTS, [e for e, _ in sink], chunk=4)
     for (e, rp), b in zip(sink, bools):
         if b is not True:
